@@ -9,6 +9,7 @@ import (
 	"github.com/matrix-org/gomatrixserverlib/spec"
 	"github.com/tidwall/gjson"
 	"github.com/tidwall/sjson"
+	"golang.org/x/crypto/ed25519"
 )
 
 type eventV3 struct {
@@ -158,4 +159,19 @@ func checkRoomID(res *eventV3) error {
 		return fmt.Errorf("gomatrixserverlib: room_id must start with !")
 	}
 	return nil
+}
+
+// SetUnsigned and Sign are promoted from eventV2 and would return an *eventV2,
+// losing the room ID and auth event behaviour of this event format.
+func (e *eventV3) SetUnsigned(unsigned interface{}) (PDU, error) {
+	res, err := e.eventV2.SetUnsigned(unsigned)
+	if err != nil {
+		return nil, err
+	}
+	return &eventV3{eventV2: *res.(*eventV2)}, nil
+}
+
+func (e *eventV3) Sign(signingName string, keyID KeyID, privateKey ed25519.PrivateKey) PDU {
+	e.eventV2.Sign(signingName, keyID, privateKey)
+	return e
 }
